@@ -97,8 +97,10 @@ Variable gh : phandle.
 Variable sysctl_ps : N.
 Hypothesis Hgh : rfd (ph_fd gh).
 
-Notation walk_open := (walk_open fz cfg pfuel gh sysctl_ps).
-Notation walk_body := (walk_body fz cfg pfuel gh sysctl_ps).
+Notation chk0 := (check_current fz cfg pfuel gh).
+Notation fin0 := (final_check fz cfg pfuel gh).
+Notation walk_open := (walk_open fz sysctl_ps chk0 fin0).
+Notation walk_body := (walk_body fz sysctl_ps chk0 fin0).
 Notation walk := (walk fz cfg pfuel gh sysctl_ps).
 
 Lemma check_current_ok cur root exp :
@@ -163,7 +165,7 @@ Qed.
 
 Lemma final_check_ok st : wst_ok st -> okd Qw (final_check fz cfg pfuel gh st).
 Proof.
-  intros Hst. unfold final_check.
+  intros Hst. unfold final_check, final_check_gen.
   eapply okp_bind; [apply check_current_ok|]. intros r _.
   destruct r as [_u|e]; [|apply bail_ok; [exact Hst|discriminate]].
   destruct Hst as (Hr & Hc & Hs).
@@ -262,7 +264,7 @@ Qed.
 Lemma walk_ok budget nosym nofollow : forall st cs,
   wst_ok st -> singles cs -> okd Qw (walk budget nosym nofollow st cs).
 Proof.
-  induction budget as [|bd IH]; intros st cs Hst Hcs; cbn [OpathM.walk].
+  unfold OpathM.walk. induction budget as [|bd IH]; intros st cs Hst Hcs; cbn [OpathM.walk_gen].
   - apply walk_body_ok; [discriminate|assumption|assumption].
   - apply walk_body_ok; [|assumption|assumption].
     intros go Hgo. destruct bd; [discriminate|]. inversion Hgo; subst.
